@@ -13,7 +13,8 @@ from vlib.core import Report
 EXTRA = ["def a = 0x1F + 0b101 - 1_000; a", "'it\\'s' + \"q\\\"q\" + 'tab\\tnl\\nx\\x41'", "1 != 2 and 2 <> 3", "def f(x) do x * 2; end; f(3);",
          "[1, 2, 3] !> length()", "<<<'a' => 1, 'b' => 2>>>['a']", "def s = 'a\nb'; length(s)", "-5 + 3 * (2 - 1)", "if TRUE then 'y' else 'n'",
          "def o = <*x = 1*>; o->x", "[x * 2 for x in [1, 2, 3] if x != 2]", "do error 'e' catch 'e' 1 finally 2 end", "def r = []; def p(n) do if n != 0 then error n; 'f' catch 1 do r = r + [n]; 'one' end catch 2 'two' catch all do 'any' end finally r = r + [0] end; [p(0), p(1), p(2), p(3), r]",
-         "def class K do def a = 1; def get(self) self->a end; K->get()", "def f(x) do if x > 1 then return; x end; [f(1), f(2)]", "def g(x) do if x > 1 then do return; end; return; end; def h() do return end; [g(1), g(2), h()]",
+         "def class K do def a = 1; def get(self) self->a end; K->get()", "def f(x) do if x > 1 then return; x end; [f(1), f(2)]", "def r = do 1 end; r + 1", "def x = 1; x = x + do x * 10 end; x = x + 100; x",
+         "def g(a) do def r = do a * 2 end; r end; g(21)", "def l = [do 1; 2 end, 3]; def m = max(do 4 end, 2); [length(l), m]", "def g(x) do if x > 1 then do return; end; return; end; def h() do return end; [g(1), g(2), h()]",
          "def l = []; def k(x) do if x > 1 then do append(l, x); return x * 2; end; append(l, 0); return; end; [k(1), k(5), l]", "//a.*// !> string()",
          "def x = 3; x += 0x10; x %= 7; x", "println('out'); print(1); 2", "-0.5 * 2", "1.50 + 2.25"]
 
@@ -34,7 +35,7 @@ def main(tier, seed, replay=None):
     rep.rule = ("every generated program (the generator of C02-C05) and a fixed set of literal-heavy programs is tokenised and re-rendered 10 "
                 "times (thorough 25): random gaps at every token boundary (blanks, tabs, LF, CRLF, comments, or nothing next to brackets, commas "
                 "and semicolons), int literals as decimal / hex (both cases) / binary / underscored, strings in either quote with equivalent "
-                "escapes (\\n or raw LF, \\xHH), != versus <>, redundant parentheses around literals, a trailing semicolon, and in every other rendering each optional `;` (before the end / catch / finally that closes a statement sequence, so also after a catch handler of either form) put in or left out; the value, output "
+                "escapes (\\n or raw LF, \\xHH), != versus <>, redundant parentheses around literals, a trailing semicolon, and in every other rendering each optional `;` (before the end / catch / finally that closes a statement sequence, so also after a catch handler of either form) put in or left out and do-blocks in operand position parenthesised; the value, output "
                 "and error value must equal those of the canonical rendering; distinct by rendered text")
     rep.trusted += ["tools/translate/lexer_gen.py (fail-closed symbolic execution of the scanner loop body)",
                     "coq/Prelude/LexPrelude.v (meaning of int(s, 16|2), str.replace('_',''), chr under the guards of the source)"]
@@ -56,7 +57,7 @@ def main(tier, seed, replay=None):
             continue
         base = run(I, impl, p)
         for k in range(reps):
-            txt, _ = lexrender.render(lexrender.optional_semicolons(toks, rnd) if k % 2 else toks, rnd)
+            txt, _ = lexrender.render(lexrender.paren_blocks(lexrender.optional_semicolons(toks, rnd), rnd) if k % 2 else toks, rnd)
             got = run(I, impl, txt)
             rep.count()
             rep.nontriv(txt)
